@@ -35,7 +35,7 @@ def ctime_flag(g, env, defd):
         return True
     if k in ("notin", "not"):
         return False
-    if k in ("and", "dlist", "opt", "star", "plus", "group", "suppress", "fb", "starstop", "plusstop", "skipto", "skiptoi"):
+    if k in ("and", "dlist", "opt", "star", "plus", "group", "suppress", "fb", "starstop", "plusstop", "skipto", "skiptoi", "skiptof"):
         return ctime_flag(g[1], env, defd)
     if k in ("mf", "or"):
         return all(ctime_flag(x, env, defd) for x in g[1:])
@@ -61,7 +61,7 @@ def callpre_flag(g, env, seen=()):
     k = g[0]
     if k in ("mf", "or", "each"):
         return False
-    if k in ("opt", "star", "plus", "group", "suppress", "fb", "not", "starstop", "plusstop", "skipto", "skiptoi"):
+    if k in ("opt", "star", "plus", "group", "suppress", "fb", "not", "starstop", "plusstop", "skipto", "skiptoi", "skiptof"):
         return callpre_flag(g[1], env, seen)
     if k == "dlist":
         return True          # wraps an And
@@ -241,6 +241,18 @@ def peg(g, env, s, loc, nows=False, depth=0, defd=frozenset(), np=False):
             r = peg(g[1], env, s, tl, nows, depth + 1, defd, True)
             if r is not None:
                 return (tl, [s[l0:tl]]) if k == "skipto" else (r[0], [s[l0:tl]] + r[1])
+            tl += 1
+        return None
+    if k == "skiptof":
+        # SkipTo(target, fail_on=f): at every position f is asked FIRST (with its own pre-parse, as a lookahead); if it matches
+        # the SkipTo is not a match; otherwise the target is tried exactly there
+        tl = l0
+        while tl <= len(s):
+            if peg(g[2], env, s, tl, nows, depth + 1, defd) is not None:
+                return None
+            r = peg(g[1], env, s, tl, nows, depth + 1, defd, True)
+            if r is not None:
+                return (tl, [s[l0:tl]])
             tl += 1
         return None
     if k == "combine":
